@@ -40,16 +40,20 @@ Definition tail20 (m : mgr) : list Z :=
       Nz (backoff m); bz (0 <? transmissions (ptos m))]
   ++ rtt_z (pa m) ++ rtt_z (pb m).
 
-Lemma mobs_eq : forall m code lost hulls,
-  mobs m code lost hulls =
-  code :: Z.of_nat (length lost) :: map Nz lost ++ Z.of_nat (length hulls) :: hull_z (sort_h hulls) ++ tail20 m.
+Lemma mobs_eq : forall m code lost hulls calls,
+  mobs m code lost hulls calls =
+  code :: Z.of_nat (length lost) :: map Nz lost ++ Z.of_nat (length hulls) :: hull_z (sort_h hulls)
+  ++ Z.of_nat (length calls) :: calls_z calls ++ tail20 m.
 Proof. reflexivity. Qed.
+
+Lemma length_calls_z : forall l, length (calls_z l) = (6 * length l)%nat.
+Proof. induction l as [|k l IH]; [reflexivity|]. unfold calls_z in *. cbn [flat_map call_z app length]. rewrite IH. lia. Qed.
 
 Lemma length_tail20 : forall m, length (tail20 m) = 20%nat.
 Proof. reflexivity. Qed.
 
-Lemma parse_mobs : forall m code lost hulls t,
-  parse_obs (mobs m code lost hulls ++ t) = Some (code, lost, sort_h hulls, tail20 m, t).
+Lemma parse_mobs : forall m code lost hulls calls t,
+  parse_obs (mobs m code lost hulls calls ++ t) = Some (code, lost, sort_h hulls, calls_z calls, tail20 m, t).
 Proof.
   intros. rewrite mobs_eq. cbn [app]. unfold parse_obs.
   assert (E0 : (Z.of_nat (length lost) <? 0)%Z = false) by lia. rewrite E0.
@@ -59,11 +63,15 @@ Proof.
   assert (E1 : (Z.of_nat (length hulls) <? 0)%Z = false) by lia. rewrite E1.
   rewrite Nat2Z.id.
   assert (EL : (2 * length hulls)%nat = length (hull_z (sort_h hulls))) by (rewrite length_hull_z, length_sort_h; reflexivity).
-  rewrite EL. rewrite <- app_assoc. rewrite firstn_len_app, skipn_len_app.
+  rewrite EL. rewrite <- app_assoc. rewrite firstn_len_app, skipn_len_app. cbn [app].
+  assert (E2 : (Z.of_nat (length calls) <? 0)%Z = false) by lia. rewrite E2.
+  rewrite Nat2Z.id.
+  assert (EC : (6 * length calls)%nat = length (calls_z calls)) by (rewrite length_calls_z; reflexivity).
+  rewrite EC. rewrite <- app_assoc. rewrite firstn_len_app, skipn_len_app.
   rewrite !Nat.eqb_refl. cbn [andb].
-  assert (E2 : Nat.leb 20 (length (tail20 m ++ t)) = true).
+  assert (E3 : Nat.leb 20 (length (tail20 m ++ t)) = true).
   { rewrite app_length, length_tail20. apply Nat.leb_le. lia. }
-  rewrite E2. cbn [negb].
+  rewrite E3. cbn [negb].
   rewrite map_zN_Nz, pairs_hull_z.
   change 20%nat with (length (tail20 m)). rewrite firstn_len_app, skipn_len_app. reflexivity.
 Qed.
@@ -82,15 +90,21 @@ Proof.
     unfold Nz, bz; lia.
 Qed.
 
-Lemma nonneg_mobs : forall m code lost hulls t, (0 <= code)%Z ->
-  all_nonneg (firstn (length (mobs m code lost hulls ++ t) - length t) (mobs m code lost hulls ++ t)) = true.
+Lemma nonneg_calls_z : forall l, all_nonneg (calls_z l) = true.
 Proof.
-  intros m code lost hulls t Hc.
-  replace (length (mobs m code lost hulls ++ t) - length t)%nat with (length (mobs m code lost hulls)) by (rewrite app_length; lia).
+  induction l as [|k l IH]; [reflexivity|]. unfold all_nonneg, calls_z in *. cbn [flat_map call_z app forallb].
+  rewrite IH. unfold Nz. lia.
+Qed.
+
+Lemma nonneg_mobs : forall m code lost hulls calls t, (0 <= code)%Z ->
+  all_nonneg (firstn (length (mobs m code lost hulls calls ++ t) - length t) (mobs m code lost hulls calls ++ t)) = true.
+Proof.
+  intros m code lost hulls calls t Hc.
+  replace (length (mobs m code lost hulls calls ++ t) - length t)%nat with (length (mobs m code lost hulls calls)) by (rewrite app_length; lia).
   rewrite firstn_len_app, mobs_eq. unfold all_nonneg. cbn [forallb].
-  rewrite forallb_app. cbn [forallb]. rewrite forallb_app.
-  fold (all_nonneg (map Nz lost)) (all_nonneg (hull_z (sort_h hulls))) (all_nonneg (tail20 m)).
-  rewrite nonneg_map_Nz, nonneg_hull_z, nonneg_tail20. lia.
+  rewrite forallb_app. cbn [forallb]. rewrite forallb_app. cbn [forallb]. rewrite forallb_app.
+  fold (all_nonneg (map Nz lost)) (all_nonneg (hull_z (sort_h hulls))) (all_nonneg (calls_z calls)) (all_nonneg (tail20 m)).
+  rewrite nonneg_map_Nz, nonneg_hull_z, nonneg_calls_z, nonneg_tail20. lia.
 Qed.
 
 (* reading the tail back *)
@@ -200,6 +214,77 @@ Proof.
     + change (0 =? 0) with true. change (0 =? 1) with false. cbn match. apply f_equal. apply f_equal2; [apply f_equal2; [reflexivity|lia]|lia].
     + change (1 =? 0) with false. change (1 =? 1) with true. cbn match. apply f_equal. apply f_equal2; [apply f_equal2; [reflexivity|lia]|lia].
 Qed.
+
+(* ------------------------------------------------------------------------------------------ *)
+(* what the manager hands to the congestion controller                                         *)
+(* ------------------------------------------------------------------------------------------ *)
+Definition call_time_ok (now : N) (k : call) : bool :=
+  if k_kind k =? 1 then k_a k =? now
+  else if k_kind k =? 2 then k_c k =? now
+  else if k_kind k =? 3 then (k_d k =? now) && (0 <? k_a k)
+  else true.
+
+Lemma Nz_eqb : forall x y, (Nz x =? Z.of_N y)%Z = (x =? y).
+Proof. intros. unfold Nz. destruct (N.eqb_spec x y); lia. Qed.
+
+Lemma calls_ok_z : forall now l, forallb (call_time_ok now) l = true -> calls_ok now (calls_z l) = true.
+Proof.
+  induction l as [|k l IH]; intros H; [reflexivity|]. cbn [forallb] in H. apply andb_prop in H as [Hk Hl].
+  unfold calls_z. cbn [flat_map call_z app calls_ok]. fold (calls_z l). rewrite (IH Hl), andb_true_r.
+  unfold call_time_ok in Hk. rewrite !zN_Nz.
+  change 1%Z with (Z.of_N 1). change 2%Z with (Z.of_N 2). change 3%Z with (Z.of_N 3). rewrite !Nz_eqb. exact Hk.
+Qed.
+
+Lemma lost_calls_ok : forall ls m pcd cpath now prev,
+  forallb (call_time_ok now) (lost_calls m pcd cpath now prev ls) = true.
+Proof.
+  induction ls as [|p t IH]; intros m pcd cpath now prev; [reflexivity|]. cbn [lost_calls].
+  rewrite forallb_app, IH, andb_true_r. destruct (0 <? p_bytes p) eqn:E; [|reflexivity].
+  cbn [forallb]. unfold call_time_ok. cbn [k_kind k_a k_d]. change (3 =? 1) with false. change (3 =? 2) with false.
+  change (3 =? 3) with true. cbn match. rewrite N.eqb_refl, E. reflexivity.
+Qed.
+
+Lemma detect_calls_ok : forall m now cpath, forallb (call_time_ok now) (detect_calls m now cpath) = true.
+Proof.
+  intros. unfold detect_calls. destruct (largest m) as [lg|]; [|reflexivity].
+  destruct (detect_walk m lg now cpath (sentp m) {| cur := None; maxd := 0 |}) as [[ls c] lt]. apply lost_calls_ok.
+Qed.
+
+Lemma ack_calls_ok : forall m now rs lgf ad rx, forallb (call_time_ok now) (ack_calls m now rs lgf ad rx) = true.
+Proof.
+  intros. unfold ack_calls. destruct (ack_pre_state m now rs lgf ad rx) as [[m2 acked]|]; [|reflexivity].
+  rewrite !forallb_app, detect_calls_ok. cbn [andb]. apply andb_true_intro. split.
+  - rewrite forallb_forall. intros k Hk. apply in_map_iff in Hk as (p & <- & _).
+    unfold call_time_ok. cbn [k_kind k_c]. change (2 =? 1) with false. change (2 =? 2) with true. cbn match. apply N.eqb_refl.
+  - destruct (largest_newly (filter (fun p => p_path p =? rx) acked) None) as [ln|]; [|reflexivity].
+    destruct (0 <? sum_bytes_on acked rx); [|reflexivity]. cbn [forallb].
+    unfold call_time_ok. cbn [k_kind k_c]. change (2 =? 1) with false. change (2 =? 2) with true. cbn match. rewrite N.eqb_refl. reflexivity.
+Qed.
+
+Lemma timeout_calls_ok : forall m now, forallb (call_time_ok now) (timeout_calls m now) = true.
+Proof.
+  intros. unfold timeout_calls. destruct (loss_timer m) as [lt|]; [|reflexivity].
+  destruct (has_elapsed lt now); [apply detect_calls_ok|reflexivity].
+Qed.
+
+Lemma mcalls_time_ok : forall m c a b d e f g,
+  forallb (call_time_ok (op_now (m_now m) c a e)) (mcalls m c a b d e f g) = true.
+Proof.
+  intros. unfold mcalls, op_now.
+  destruct (c =? 1)%Z.
+  { cbn [forallb]. unfold call_time_ok. cbn [k_kind k_a]. change (1 =? 1) with true. cbn match. rewrite N.eqb_refl. reflexivity. }
+  destruct (c =? 2)%Z; [reflexivity|].
+  destruct ((c =? 3) || (c =? 4))%Z.
+  { cbn [orb]. destruct (match lastpn m with Some l => zN b <=? l | None => false end); [apply ack_calls_ok|reflexivity]. }
+  destruct (c =? 5)%Z.
+  { cbn [orb]. match goal with |- context[backoff_cap ?B] => destruct (backoff_cap B) end; [apply timeout_calls_ok|reflexivity]. }
+  destruct (c =? 6)%Z; [destruct (m_space m =? 2); reflexivity|].
+  destruct (c =? 7)%Z; [destruct (m_client m); reflexivity|]. reflexivity.
+Qed.
+
+Lemma mcalls_ok : forall m c a b d e f g,
+  calls_ok (op_now (m_now m) c a e) (calls_z (mcalls m c a b d e f g)) = true.
+Proof. intros. apply calls_ok_z, mcalls_time_ok. Qed.
 
 (* the relation between the manager and the judge's ledger *)
 Definition rel (m : mgr) (j : jm) : Prop :=
@@ -406,15 +491,16 @@ Lemma burst_facts : forall m now,
   /\ ccs (pa (burst_complete m now)) = ccs (pa m) /\ ccs (pb (burst_complete m now)) = ccs (pb m).
 Proof. intros. unfold burst_complete. destruct (pend m); cbn; repeat split; reflexivity. Qed.
 
-Ltac jopen :=
+Ltac jopen R :=
   unfold jstep_m; rewrite parse_mobs; cbv zeta; cbn match;
   rewrite nonneg_mobs by lia; cbn [negb];
+  rewrite R, mcalls_ok; cbn [negb];
   rewrite cc_of_tail0, cc_of_tail4, bo_tail.
 
 Lemma jstep_ok : forall m j c a b d e f g t, winv m -> now_pos m -> rel m j -> (c =? 6)%Z = false ->
   exists j',
     (let '(m', code, lost, hulls, stop) := mstep m c a b d e f g in
-     jstep_m true (m_space m =? 2) (m_client m) j c a b d e f g (mobs m' code lost hulls ++ t) = Some (j', t, false) /\ stop = false)
+     jstep_m true (m_space m =? 2) (m_client m) j c a b d e f g (mobs m' code lost hulls (mcalls m c a b d e f g) ++ t) = Some (j', t, false) /\ stop = false)
     /\ rel (mstep_state m c a b d e f g) j'.
 Proof.
   intros m j c a b d e f g t W Hn (R1 & R2 & R3 & R4 & R5 & R6 & R7 & R8) H6.
@@ -427,7 +513,7 @@ Proof.
     set (path := if single m || (f =? 0)%Z then 0 else 1) in *.
     set (m' := on_packet_sent (set_now m now) pn (zN b) (negb (d =? 0)%Z) now path) in *.
     eexists. split; [split; [|reflexivity]|].
-    - jopen. rewrite E1. rewrite R1, R3, R4, R5, R6, R7.
+    - jopen R3. rewrite E1. rewrite R1, ?R3, R4, R5, R6, R7.
       change (m_client m || negb (m_space m =? 2)) with (single m). fold now pn path.
       assert (Ecc0 : ccs (pa m') = cc_add (ccs (pa m)) (if path =? 0 then zN b else 0) 0 0 0).
       { subst m'. unfold on_packet_sent. cbn [pa]. rewrite ccs_pa_cc_path. cbn [set_now pa].
@@ -448,11 +534,11 @@ Proof.
     destruct (burst_facts (set_now m now) now) as (B1 & B2 & B3 & B4 & B5 & B6 & B7).
     cbn [set_now sentp largest lastpn m_now backoff pa pb] in B1, B2, B3, B4, B5, B6, B7.
     eexists. split; [split; [|reflexivity]|].
-    - jopen. change (2 =? 1)%Z with false. change ((2 =? 3) || (2 =? 4))%Z with false. change (2 =? 5)%Z with false.
+    - jopen R3. change (2 =? 1)%Z with false. change ((2 =? 3) || (2 =? 4))%Z with false. change (2 =? 5)%Z with false.
       change (2 =? 6)%Z with false. change (2 =? 2)%Z with true. cbn match.
       rewrite B5, B6, B7, R1, R5, R6, R7, !cc_eqb_refl, N.eqb_refl, Z.eqb_refl.
       rewrite (bif_ok_winv m W). reflexivity.
-    - unfold rel. cbn [j_un j_lg j_now j_last j_cc0 j_cc1 j_bo]. rewrite B1, B2, B3, B4, B5, B6, B7, R3.
+    - unfold rel. cbn [j_un j_lg j_now j_last j_cc0 j_cc1 j_bo]. rewrite B1, B2, B3, B4, B5, B6, B7, ?R3.
       repeat split; try assumption; try reflexivity; try (symmetry; assumption); try congruence. }
   destruct ((c =? 3) || (c =? 4))%Z eqn:E34.
   { set (now := m_now m + zN a) in *. fold (pre_state m now) in *.
@@ -471,9 +557,9 @@ Proof.
       destruct (on_ack_frame m0 now rs (zN b) (zN g * 1000) rx) as [[m7 lost] hulls] eqn:EA.
       cbn [fst snd] in *.
       eexists. split; [split; [|reflexivity]|].
-      + jopen. rewrite E1, E34. rewrite R4, Eok. cbn [negb].
+      + jopen R3. rewrite E1, E34. rewrite R4, Eok. cbn [negb].
         rewrite R1, <- P1. fold rs. rewrite Ea.
-        rewrite R2, <- P2. rewrite R3. fold now.
+        rewrite R2, <- P2. rewrite ?R3. fold now.
         rewrite F7. rewrite F6 at 1. rewrite judge_lost_prefix; [|rewrite <- F6; assumption|assumption|assumption].
         rewrite !N.add_0_l. rewrite R5, R6, <- P6, <- P7, <- F10, <- F11, !cc_eqb_refl.
         rewrite F1, hulls_eqb_refl. rewrite (bif_ok_winv m7 W').
@@ -486,9 +572,9 @@ Proof.
         destruct F5 as [-> | ->]; [rewrite P5; assumption|lia].
     - (* rejected: largest acknowledged was never sent *)
       eexists. split; [split; [|reflexivity]|].
-      + jopen. rewrite E1, E34. rewrite R4, Eok. cbn [negb].
+      + jopen R3. rewrite E1, E34. rewrite R4, Eok. cbn [negb].
         rewrite P5, P6, P7, R5, R6, R7, !cc_eqb_refl, N.eqb_refl, Z.eqb_refl. reflexivity.
-      + unfold rel. cbn [j_un j_lg j_now j_last j_cc0 j_cc1 j_bo]. rewrite P1, P2, P3, P4, P5, R3.
+      + unfold rel. cbn [j_un j_lg j_now j_last j_cc0 j_cc1 j_bo]. rewrite P1, P2, P3, P4, P5, ?R3.
         repeat split; try assumption; try reflexivity; try (symmetry; assumption); try congruence. }
   destruct (c =? 5)%Z eqn:E5.
   { set (now := m_now m + zN a) in *. fold (pre_state m now) in *.
@@ -500,7 +586,7 @@ Proof.
       destruct (on_timeout m1 now maxb) as [m2 lost] eqn:ET. cbn [fst snd] in *.
       pose proof W1 as [Ws1 _ _ _ _ _ _].
       eexists. split; [split; [|reflexivity]|].
-      + jopen. rewrite E1, E34, E5. rewrite R3. fold now.
+      + jopen R3. rewrite E1, E34, E5. rewrite ?R3. fold now.
         rewrite R1, <- P1, R2, <- P2, T2. rewrite T1 at 1.
         rewrite judge_lost_prefix; [|rewrite <- T1; assumption|assumption|assumption].
         rewrite !N.add_0_l. rewrite R5, R6, <- P6, <- P7, <- T7, <- T8, !cc_eqb_refl.
@@ -514,13 +600,13 @@ Proof.
         split; [reflexivity|]. split; [reflexivity|]. split; [reflexivity|].
         rewrite P5 in T6. destruct T6 as [-> | ->]; lia.
     - eexists. split; [split; [|reflexivity]|].
-      + jopen. rewrite E1, E34, E5. cbn [judge_lost]. rewrite !cc_add_0.
+      + jopen R3. rewrite E1, E34, E5. cbn [judge_lost]. rewrite !cc_add_0.
         change (2 =? 0)%Z with false. change (2 =? 2)%Z with true. cbn [orb andb].
         rewrite P5, P6, P7, R1, R5, R6, R7, !cc_eqb_refl, N.eqb_refl.
         rewrite (bif_ok_winv m W).
         assert (E1b : (1 <=? backoff m) = true) by lia. rewrite E1b. reflexivity.
       + unfold rel. cbn [j_un j_lg j_now j_last j_cc0 j_cc1 j_bo]. rewrite ?cc_add_0, P1, P2, P3, P4, P5, ?P6, ?P7.
-        repeat split; try assumption; try reflexivity; try (symmetry; assumption); try congruence. subst now. rewrite R3. reflexivity. }
+        repeat split; try assumption; try reflexivity; try (symmetry; assumption); try congruence. }
   destruct ((c =? 7)%Z && m_client m) eqn:E7.
   { (* Retry *)
     apply andb_prop in E7 as [E7 Ec]. rewrite E7, Ec in *.
@@ -537,7 +623,7 @@ Proof.
         cbn [cc_path set_path backoff]. rewrite F1, F2, F3, F4. repeat split; reflexivity. }
       destruct G as (G1 & G2 & G3).
       pose proof (bif_ok_winv _ W') as HB. change (sentp (retry m1)) with (@nil pkt) in HB.
-      jopen. rewrite ?E1, ?E34, ?E5, ?H6, ?E7, ?Ec. cbn [andb].
+      jopen R3. rewrite ?E1, ?E34, ?E5, ?H6, ?E7, ?Ec. cbn [andb].
       rewrite HB, G1, G2, G3, R1, R5, R6, R7, !cc_eqb_refl, N.eqb_refl, Z.eqb_refl. reflexivity.
     - assert (G : ccs (pa (retry m1)) = cc_add (ccs (pa m)) 0 0 0 (fold_right (fun p acc => p_bytes p + acc) 0 (sentp m))
                  /\ ccs (pb (retry m1)) = ccs (pb m) /\ backoff (retry m1) = backoff m
@@ -552,19 +638,19 @@ Proof.
     destruct (c =? 7)%Z eqn:E7'.
     - cbn [andb] in E7. rewrite E7 in *.
       eexists. split; [split; [|reflexivity]|].
-      + jopen. rewrite ?E1, ?E34, ?E5, ?H6, ?E7', ?E7, ?E2. cbn [andb]. rewrite R1, R5, R6, R7, !cc_eqb_refl, N.eqb_refl, Z.eqb_refl.
+      + jopen R3. rewrite ?E1, ?E34, ?E5, ?H6, ?E7', ?E7, ?E2. cbn [andb]. rewrite R1, R5, R6, R7, !cc_eqb_refl, N.eqb_refl, Z.eqb_refl.
         rewrite (bif_ok_winv m W). reflexivity.
       + unfold rel. cbn [j_un j_lg j_now j_last j_cc0 j_cc1 j_bo].
         repeat split; try assumption; try reflexivity; try (symmetry; assumption); try congruence.
     - destruct (c =? 8)%Z eqn:E8.
       + eexists. split; [split; [|reflexivity]|].
-        * jopen. rewrite ?E1, ?E34, ?E5, ?H6, ?E7', ?E2. cbn [andb peer_validated pa pb backoff].
+        * jopen R3. rewrite ?E1, ?E34, ?E5, ?H6, ?E7', ?E2. cbn [andb peer_validated pa pb backoff].
           rewrite R1, R5, R6, R7, !cc_eqb_refl, N.eqb_refl, Z.eqb_refl.
           rewrite (bif_ok_winv m W). reflexivity.
         * unfold rel. cbn [j_un j_lg j_now j_last j_cc0 j_cc1 j_bo peer_validated sentp largest lastpn m_now pa pb backoff].
           repeat split; try assumption; try reflexivity; try (symmetry; assumption); try congruence.
       + eexists. split; [split; [|reflexivity]|].
-        * jopen. rewrite ?E1, ?E34, ?E5, ?H6, ?E7', ?E2. cbn [andb]. rewrite R1, R5, R6, R7, !cc_eqb_refl, N.eqb_refl, Z.eqb_refl.
+        * jopen R3. rewrite ?E1, ?E34, ?E5, ?H6, ?E7', ?E2. cbn [andb]. rewrite R1, R5, R6, R7, !cc_eqb_refl, N.eqb_refl, Z.eqb_refl.
           rewrite (bif_ok_winv m W). reflexivity.
         * unfold rel. cbn [j_un j_lg j_now j_last j_cc0 j_cc1 j_bo].
           repeat split; try assumption; try reflexivity; try (symmetry; assumption); try congruence. }
@@ -585,7 +671,7 @@ Qed.
 (* a space discard (Initial / Handshake) *)
 Lemma jstep_discard : forall m j a b d e f g t, winv m -> rel m j -> (m_space m =? 2) = false ->
   exists j', jstep_m true false (m_client m) j 6 a b d e f g
-               (mobs (discard (if mp m then burst_complete m (m_now m) else m)) 0 [] [] ++ t) = Some (j', t, true).
+               (mobs (discard (if mp m then burst_complete m (m_now m) else m)) 0 [] [] (mcalls m 6 a b d e f g) ++ t) = Some (j', t, true).
 Proof.
   intros m j a b d e f g t W (R1 & R2 & R3 & R4 & R5 & R6 & R7 & R8) Es.
   set (m1 := if mp m then burst_complete m (m_now m) else m).
@@ -607,7 +693,7 @@ Proof.
   { unfold discard. rewrite ccs_pa_cc_path, ccs_pb_cc_path. change (0 =? 0) with true. cbn match.
     cbn [cc_path set_path backoff]. rewrite F1, F2, F3, F4. repeat split; reflexivity. }
   destruct G as (G1 & G2 & G3).
-  eexists. jopen.
+  eexists. jopen R3.
   change (6 =? 1)%Z with false. change ((6 =? 3) || (6 =? 4))%Z with false. change (6 =? 5)%Z with false.
   change (6 =? 6)%Z with true. cbn [negb andb]. cbn match.
   rewrite D0, D1. rewrite R1, <- F1, filter_path0_nil by assumption.
@@ -617,11 +703,11 @@ Qed.
 
 (* the same code in the ApplicationData space is ignored *)
 Lemma jstep_noop6 : forall m j a b d e f g t, winv m -> rel m j -> (m_space m =? 2) = true ->
-  exists j', jstep_m true true (m_client m) j 6 a b d e f g (mobs m 0 [] [] ++ t) = Some (j', t, false) /\ rel m j'.
+  exists j', jstep_m true true (m_client m) j 6 a b d e f g (mobs m 0 [] [] (mcalls m 6 a b d e f g) ++ t) = Some (j', t, false) /\ rel m j'.
 Proof.
   intros m j a b d e f g t W (R1 & R2 & R3 & R4 & R5 & R6 & R7 & R8) Es.
   eexists. split.
-  - jopen. change (6 =? 1)%Z with false. change ((6 =? 3) || (6 =? 4))%Z with false. change (6 =? 5)%Z with false.
+  - jopen R3. change (6 =? 1)%Z with false. change ((6 =? 3) || (6 =? 4))%Z with false. change (6 =? 5)%Z with false.
     change (6 =? 6)%Z with true. change (6 =? 7)%Z with false. change (6 =? 2)%Z with false. cbn [negb andb]. cbn match.
     rewrite R1, R5, R6, R7, !cc_eqb_refl, N.eqb_refl, Z.eqb_refl. rewrite (bif_ok_winv m W). reflexivity.
   - unfold rel. cbn [j_un j_lg j_now j_last j_cc0 j_cc1 j_bo].
